@@ -18,6 +18,7 @@ mod val;
 mod p_clvm;
 mod corpus;
 mod p_history;
+mod p_usecheck;
 mod p_entry;
 mod p_includes;
 mod p_atomic;
@@ -33,6 +34,7 @@ pub fn handle(job: &Value) -> Value {
         "compile" => ops_compile::op_compile(job),
         "deps" => p_includes::op_deps(job),
         "entry" => p_entry::op_entry(job),
+        "usecheck" => p_usecheck::op_usecheck(job),
         "ping" => json!({"pong": true}),
         other => json!({"error": format!("unknown op {other}")}),
     }
@@ -50,6 +52,7 @@ fn main() {
         "replay-clvm" => p_clvm::replay(&rest),
         "drive-clvm" => p_clvm::drive(&rest),
         "drive-compile" => p_compile::drive(&rest),
+        "drive-usecheck" => p_usecheck::drive(&rest),
         "drive-shipped" => p_compile::drive_shipped(&rest),
         "replay-compile" => p_compile::replay(&rest),
         "gen-programs" => p_compile::gen_programs(&rest),
